@@ -461,7 +461,16 @@ def rule_PF1(ctx, rep):
             vals.add((st_, norm(v)))
         if vals == {(True, '1'), (False, npar)}:
             good = True
-    shp = any(v_ is not None and isinstance(v_, ast.Call) and attr_tail(v_.func) == 'prod' for _st, v_, _how in definitions(call.node, npar))
+    # the number of entries of a shape is the exact integer product math.prod (1 for the 0-dimensional shape (), as an int):
+    # numpy's prod gives the float 1.0 there, which range() rejects
+    tree_ = model.trees['thresha']
+    from_math = any(isinstance(n_, ast.ImportFrom) and n_.module == 'math' and any(a_.name == 'prod' and a_.asname in (None, 'prod') for a_ in n_.names) for n_ in ast.walk(tree_))
+
+    def int_prod(v_):
+        return isinstance(v_, ast.Call) and (norm(v_.func) == 'math.prod' or (norm(v_.func) == 'prod' and from_math))
+    prods = [v_ for _st, v_, _how in definitions(call.node, npar) if v_ is not None and isinstance(v_, ast.Call) and attr_tail(v_.func) == 'prod']
+    prods += [x_ for x_ in ast.walk(call.node) if isinstance(x_, ast.Call) and attr_tail(x_.func) == 'prod' and not any(x_ is y_ for y_ in prods)]
+    shp = bool(prods) and all(int_prod(v_) for v_ in prods)
     if good and shp:
         rep.ok('PF1', call, cnts[0], 'exactly n values (1 for n=None, prod(shape) for a shape)')
     else:
